@@ -25,6 +25,7 @@ Definition validate (x : cell) : option string :=
   let s := x_solver x in let d := x_datafit x in let p := x_penalty x in
   if s_requires_no_datafit s then Some "datafit must be None"
   else if s_refuses_sparse s && x_sparse x then Some "sparse not supported"
+  else if s_refuses_group_datafit s && has d "grp_ptr" then Some "block-separable datafit"
   else if s_requires_groups s && negb (has d "grp_ptr" && has d "grp_indices" && has p "grp_ptr" && has p "grp_indices") then Some "not block-separable"
   else if s_checks_sparse_suffix s && x_sparse x && negb (forallb (fun a => has_alt d a "_sparse") (s_req_datafit s)) then Some "missing sparse attr"
   else if s_checks_subdiff s && x_subdiff x && negb (has p "subdiff_distance") then Some "missing subdiff_distance"
